@@ -22,6 +22,7 @@ import (
 	"context"
 	"fmt"
 	"net"
+	"strings"
 	"syscall"
 	"testing"
 	"time"
@@ -227,7 +228,15 @@ func nonReader(t *testing.T) string {
 		default:
 			rec.Case(true, ev.Hash("nonreader", v.name, "starved"), "nonreader:"+v.name+":other-clients-starved")
 			t.Logf("variant %s: %s: %s", v.name, v.what, detail)
-			if !rec.Known(v.sig) && msg == "" {
+			// The open findings KF-C29-1/2 describe starvation WHILE the client holds
+			// its socket open. A server that stays blocked after that client has
+			// closed its socket is a different failure and is never suppressed.
+			if strings.Contains(detail, "did not recover") {
+				rec.Class("nonreader:" + v.name + ":no-recovery-after-client-closed")
+				if msg == "" || !strings.Contains(msg, "did not recover") {
+					msg = fmt.Sprintf("%s and stayed blocked after that client was gone (%s) [signature %s-no-recovery]", v.what, detail, v.sig)
+				}
+			} else if !rec.Known(v.sig) && msg == "" {
 				msg = fmt.Sprintf("%s (%s) [signature %s]", v.what, detail, v.sig)
 			}
 		}
